@@ -2634,6 +2634,10 @@ func (db *DB) writeLTXFileAt(ctx context.Context, r io.Reader, verifyPostApplyCh
 	}
 
 	if verifyPostApplyChecksum {
+		// A transaction that extends the database has the database's page size.
+		if !hdr.IsSnapshot() && db.PageN() > 0 && hdr.PageSize != db.pageSize {
+			return "", fmt.Errorf("page size mismatch: %d, expecting %d", hdr.PageSize, db.pageSize)
+		}
 		if chksum, ok, err := db.ltxPostApplyChecksum(f, prevPos); err != nil {
 			return "", fmt.Errorf("ltx validation error: %w", err)
 		} else if got := dec.Trailer().PostApplyChecksum; ok && got != chksum {
